@@ -257,6 +257,19 @@ def registry(I):
         add('mef.selection_std', scale, (lambda scale=scale: (lambda a: FlowCal.mef.selection_std(a['pops'], scale=scale), {'pops': pops()})))
         add('mef.clustering_gmm', scale, (lambda scale=scale: (lambda a: FlowCal.mef.clustering_gmm(a['s'], 4, scale=scale),
                                                               {'s': I.beads()[:, ['FL1']]})), heavy=True, seeded=True)
+
+        def nonpos(as_array, scale=scale):
+            # floating-point events with zeros and negative values (compensated data)
+            def build():
+                smp = I.beads()[:, ['FL1']]
+                smp[0, 0] = 0.0
+                smp[2, 0] = -0.75
+                smp[5, 0] = 0.0
+                x = np.array(smp.view(np.ndarray), dtype=np.float64) if as_array else smp
+                return (lambda a: FlowCal.mef.clustering_gmm(a['s'], 4, scale=scale), {'s': x})
+            return build
+        add('mef.clustering_gmm', scale + '/float-array-with-nonpositive-events', nonpos(True), heavy=True, seeded=True)
+        add('mef.clustering_gmm', scale + '/float-sample-with-nonpositive-events', nonpos(False), heavy=True, seeded=True)
     def rawpops():
         with warnings.catch_warnings():
             warnings.simplefilter('ignore')
